@@ -1,0 +1,10 @@
+//go:build verif
+
+package tree
+
+import "github.com/pinealctx/neptune/ds/tree/btree"
+
+// Hooks for the verification harness (/verif, property C03). Add-only; compiled only with -tags verif.
+
+// VerifInner exposes the wrapped B-tree (for the structural check and Len).
+func (b *BTree) VerifInner() *btree.BTree { return b.t }
